@@ -748,17 +748,25 @@ func (q *Queue) storeNewMessage(meta *QueueMetadata, header textproto.Header, bo
 		return nil, err
 	}
 
-	if err := q.updateMetadataOnDisk(meta); err != nil {
+	// The meta-data file is what makes readDiskQueue pick the message up after
+	// a restart. Write it only once the header and the body are safely on
+	// disk, otherwise a crash in between leaves a message with truncated
+	// content that would be delivered.
+	if err := headerFile.Sync(); err != nil {
 		q.tryRemoveDanglingFile(id + ".body")
 		q.tryRemoveDanglingFile(id + ".header")
 		return nil, err
 	}
 
-	if err := headerFile.Sync(); err != nil {
+	if err := bodyFile.Sync(); err != nil {
+		q.tryRemoveDanglingFile(id + ".body")
+		q.tryRemoveDanglingFile(id + ".header")
 		return nil, err
 	}
 
-	if err := bodyFile.Sync(); err != nil {
+	if err := q.updateMetadataOnDisk(meta); err != nil {
+		q.tryRemoveDanglingFile(id + ".body")
+		q.tryRemoveDanglingFile(id + ".header")
 		return nil, err
 	}
 
